@@ -339,7 +339,17 @@ class C19(common.Prop):
             r = self.call(lambda: self.dump_pose(self.op.load_openpose(
                 frames, fps=case["fps"], width=case["width"], height=case["height"], depth=case["depth"], num_frames=case["num_frames"])))
         else:
-            with tempfile.TemporaryDirectory(prefix="c19_") as d:
+            # the directory's own name is arbitrary text (brackets, stars, question marks, spaces are ordinary characters in a path):
+            # a function of the case only
+            sub = ["", "take[2]", "a b", "x*y", "rec?1", "[ab]"][(len(case["entries"]) + len(case["entries"][0][0] if case["entries"] else "")) % 6]
+            with tempfile.TemporaryDirectory(prefix="c19_") as d0:
+                d = os.path.join(d0, sub) if sub else d0
+                os.makedirs(d, exist_ok=True)
+                if sub == "take[2]":
+                    # a sibling directory that a pattern reading of the name would match instead: another recording
+                    os.makedirs(os.path.join(d0, "take2"), exist_ok=True)
+                    with open(os.path.join(d0, "take2", "other_000000000000_keypoints.json"), "w") as fh:
+                        json.dump({"version": 1.3, "people": []}, fh)
                 for name, people in case["entries"]:
                     with open(os.path.join(d, name), "w") as fh:
                         json.dump({"version": 1.3, "people": people}, fh)
